@@ -193,6 +193,25 @@ def run_case(case):
             elif araised is None and isinstance(a, bool):
                 out.append(("C06:bitmap-attr-fault", "%s: .%s is %r although no clean frame" % (where, mangle(b), a)))
 
+    # ---- the interpretation is a function of the frame, not of how often or in which order it was asked for
+    def probe(obj):
+        try:
+            v2 = obj.value
+            return ("value", repr(v2) if not isinstance(v2, frame.Frame) else "frame:%d:%s" % (v2.as_integer, v2.error))
+        except Exception as e:  # noqa
+            return ("raised", type(e).__name__)
+    first = probe(r)
+    second = probe(r)
+    fresh = r_cls(fr)
+    try:
+        str(fresh)
+    except Exception:  # noqa - judged below on r itself
+        pass
+    after_str = probe(fresh)
+    if second != first or after_str != first:
+        out.append(("C06:value-depends-on-access-history:%s" % base_of_value(r_cls),
+                    "%s: .value gives %r on first access, %r on second access, %r after str()" % (where, first, second, after_str)))
+
     # ---- str()
     try:
         s = str(r)
@@ -207,6 +226,13 @@ def run_case(case):
     except Exception as e:  # noqa
         out.append(("C06:str-raises:%s:%s" % (type(e).__name__, name), "%s: str() raised %r" % (where, e)))
     return out
+
+
+def base_of_value(r_cls):
+    for k in r_cls.__mro__:
+        if "value" in k.__dict__:
+            return k.__name__
+    return r_cls.__name__
 
 
 def base_of_str(r_cls):
